@@ -8,9 +8,13 @@ from .C13 import CENSUS_TRUST
 class C17(Prop):
     id = 'C17'
     module = 'Cbor.Props.C17'
-    theorems = ['Props.C17.C17_mutable_globals', 'Props.C17.C17_global_writers', 'Props.C17.C17_static_locals', 'Props.C17.C17_workers_write_no_global']
+    theorems = ['Props.C17.C17_mutable_globals', 'Props.C17.C17_global_writers', 'Props.C17.C17_static_locals', 'Props.C17.C17_workers_write_no_global',
+                'Props.C17.C17_any_schedule', 'Props.C17.C17_disjoint_writes']
     trusted_base = BASE_TRUST + CENSUS_TRUST + [
-        'the theorems show that no function other than cbor_set_allocs assigns a file-scope variable or static local; that stores through pointers stay inside '
+        'C17_any_schedule: in the heap-level client model (no state besides each thread\'s own items and slots - which is what the census establishes for the code) every interleaving of the '
+        'threads\' API calls gives each thread the final state and the results of its solo run, and a step of one thread leaves the others\' states untouched; the allocator is modelled per thread '
+        '(the installed allocator is assumed thread-safe and to answer a thread independently of the others)',
+        'the census theorems show that no function other than cbor_set_allocs assigns a file-scope variable or static local; that stores through pointers stay inside '
         'the calling thread\'s own items follows from the premise that no item is shared, and is observed (not proved) by ThreadSanitizer on randomized schedules',
         'ThreadSanitizer reports races on the schedules that occurred and on happens-before-unordered accesses of those runs only',
     ]
